@@ -268,21 +268,36 @@ structure DB where
   midx     : MapIdx := []
   idx      : Option Bytes := none
   oidx     : OpenIdx := .fixed []
+  pos      : Nat := 0         -- write cursor of the data file while creating (`Seek(0,1)`)
   atStart  : Bool := false   -- data file position is 0 (nothing read since Open)
   codec    : Codec := []
 deriving Repr
 
 def DB.create (klen : Nat) (compress : Bool) : DB := { klen := klen, compress := compress, phase := .creating }
 
-/-- `WriteData`: offset = current position (= end of file: nothing is read while creating), index entry,
-then `len32 ‖ stored`. `content` is what `Decode` will have to give back. -/
+/-- a `write` of `bs` at offset `pos` of a file: the bytes there are replaced, the file grows if needed, what
+lies behind the written bytes stays (no truncation) -/
+def overwriteAt (file : Bytes) (pos : Nat) (bs : Bytes) : Bytes :=
+  file.take pos ++ bs ++ file.drop (pos + bs.length)
+
+/-- `NewBlockDB(file …).Create()` over files that are ALREADY THERE — what a retry after a crash does:
+`os.OpenFile(…, O_RDWR|O_CREATE)` neither truncates nor appends, so the leftover bytes stay and the write
+cursor starts at 0; the map index starts empty; the old index file (if any) stays until `Save` overwrites it. -/
+def DB.recreate (d : DB) (klen : Nat) (compress : Bool) : DB :=
+  { DB.create klen compress with dat := d.dat, idx := d.idx }
+
+/-- `WriteData`: offset = the write cursor (`Seek(0,1)`; on a fresh file that is its end), index entry, then
+`len32 ‖ stored` written AT the cursor. `content` is what `Decode` will have to give back. -/
 def DB.write (d : DB) (key content stored : Bytes) : DB :=
-  { d with midx := d.midx.set key d.dat.length,
-           dat := d.dat ++ encodeRecord stored,
+  { d with midx := d.midx.set key d.pos,
+           dat := overwriteAt d.dat d.pos (encodeRecord stored),
+           pos := d.pos + (encodeRecord stored).length,
            codec := (stored, content) :: d.codec }
 
-/-- `Save`: write the index file, close the data file. -/
-def DB.save (d : DB) : DB := { d with idx := some (encodeIndex d.midx), phase := .closed }
+/-- `Save`: write the index file from its start (`O_RDWR|O_CREATE`, no truncation: a longer old file keeps its
+tail), close the data file. -/
+def DB.save (d : DB) : DB :=
+  { d with idx := some (overwriteAt (d.idx.getD []) 0 (encodeIndex d.midx)), phase := .closed }
 
 inductive OpenRes where
   | ok | err | panic
